@@ -143,6 +143,8 @@ pub struct NewNode {
     pub self_ref_prop: bool,
     pub other_thread: bool,
     pub ctor: u8,
+    /// build with the referent that this live node of ANOTHER DOM carries (mirrored trees)
+    pub mirror_of: Option<usize>,
     /// a String property literally keyed "Name" (the instance's name is the builder's name, whatever properties say)
     pub name_prop: Option<String>,
     /// a Content property holding an object reference to this live model node (it is a value, not a Ref property)
@@ -200,8 +202,10 @@ pub struct World {
     pub m: Model,
     pub doms: Vec<WeakDom>,
     pub r: HashMap<usize, Ref>,
-    pub back: HashMap<Ref, usize>,
+    /// referent -> model nodes that carry it (several only when DOMs mirror each other's referents)
+    pub back: HashMap<Ref, Vec<usize>>,
     pub gone: Vec<(usize, Ref)>,
+    pub mirror: bool,
     pub all_refs_ever: HashSet<Ref>,
     pub log: Vec<String>,
 }
@@ -217,6 +221,11 @@ fn v(prop: &'static str, sig: &str, what: String) -> V {
 }
 
 impl World {
+    /// the model node that carries referent `g` in DOM `d` (referents are only unique within one DOM)
+    fn back_in(&self, d: usize, g: &Ref) -> Option<usize> {
+        let c = self.back.get(g)?;
+        c.iter().rev().copied().find(|i| self.m.nodes.get(i).map(|n| n.dom == d).unwrap_or(false)).or_else(|| c.last().copied())
+    }
     fn builder_of(&self, n: &NewNode, ids: &mut Vec<(InstanceBuilderInfo, usize)>, m: &mut Model, dom: usize, parent: Option<usize>) -> (InstanceBuilder, usize) {
         // `other_thread`: the builder (and with it the new referent) is created on a freshly started thread, as a
         // program that prepares subtrees on worker threads would; where it was made must not matter once it is inserted
@@ -238,6 +247,11 @@ impl World {
             _ => InstanceBuilder::new(n.class.as_str()),
         };
         let made = if n.other_thread { std::thread::scope(|s| s.spawn(make).join().expect("builder thread")) } else { make() };
+        // the chosen referent must not be in use in the target DOM (then the builder keeps its fresh one)
+        let made = match n.mirror_of.and_then(|t| self.r.get(&t)).copied() {
+            Some(r) if m.nodes.get(&n.mirror_of.unwrap()).map(|t| t.dom != dom).unwrap_or(false) && self.doms[dom].get_by_ref(r).is_none() && !ids.iter().any(|(i, _)| i.referent == r) => made.with_referent(r),
+            _ => made,
+        };
         let (mut b, effective_name) = match n.ctor {
             4 => (made, n.class.clone()),
             5 => (made, "Decoy".to_owned()),
@@ -363,7 +377,8 @@ fn gen_newnode(ch: &mut dyn Chooser, w: &World, cfg: &Cfg, depth: usize, budget:
     let live_ids: Vec<usize> = w.m.nodes.keys().copied().collect();
     let content_obj = if rich && !live_ids.is_empty() && ch.choose(8) == 0 { Some(live_ids[ch.choose(live_ids.len())]) } else { None };
     let mistyped_uid = rich && ch.choose(30) == 0;
-    NewNode { class, name, shadowed_uid, props, children, self_ref_prop: self_ref, other_thread, ctor, name_prop, content_obj, mistyped_uid }
+    let mirror_of = if w.mirror && depth == 0 && !live_ids.is_empty() && ch.choose(4) == 0 { Some(live_ids[ch.choose(live_ids.len())]) } else { None };
+    NewNode { class, name, shadowed_uid, props, children, self_ref_prop: self_ref, other_thread, ctor, mirror_of, name_prop, content_obj, mistyped_uid }
 }
 
 fn gen_op(ch: &mut dyn Chooser, w: &World, cfg: &Cfg) -> Option<Op> {
@@ -415,7 +430,13 @@ fn gen_op(ch: &mut dyn Chooser, w: &World, cfg: &Cfg) -> Option<Op> {
                     continue;
                 }
                 let np = cands[ch.choose(cands.len())];
-                return Some(Op::Transfer { x, dest: w.m.nodes[&np].dom, np });
+                let dest = w.m.nodes[&np].dom;
+                // precondition of transfer: none of the moved referents is in use in the destination (only mirrored
+                // histories can get there)
+                if w.mirror && w.m.subtree_bfs(x).iter().any(|i| w.r.get(i).map(|r| w.doms[dest].get_by_ref(*r).is_some()).unwrap_or(false)) {
+                    continue;
+                }
+                return Some(Op::Transfer { x, dest, np });
             }
             6 => {
                 if live.len() >= cfg.max_live {
@@ -506,7 +527,7 @@ fn all_ops(w: &World, cfg: &Cfg) -> Vec<Op> {
                     ops.push(Op::Insert {
                         dom: w.m.nodes[p].dom,
                         parent: *p,
-                        sub: NewNode { class: "Folder".into(), name: "n".into(), shadowed_uid: None, props, children: vec![], self_ref_prop: false, other_thread: false, ctor: 0, name_prop: None, content_obj: None, mistyped_uid: false },
+                        sub: NewNode { class: "Folder".into(), name: "n".into(), shadowed_uid: None, props, children: vec![], self_ref_prop: false, other_thread: false, ctor: 0, mirror_of: None, name_prop: None, content_obj: None, mistyped_uid: false },
                     });
                 }
             }
@@ -659,7 +680,11 @@ fn model_clone(w: &mut World, xs: &[usize], dest: usize) -> (Vec<usize>, Vec<(us
         }
     }
     // reference rewriting, after every copy exists (refs between subtrees cloned together)
-    let dest_has: HashSet<usize> = w.m.nodes.iter().filter(|(_, n)| n.dom == dest).map(|(i, _)| *i).collect();
+    // "kept when the destination DOM contains that instance": containment goes by referent value, and two DOMs may
+    // hold the same referent value (mirrored roots / chosen referents), in which case the kept Ref designates the
+    // destination's holder of that value
+    let orig_by_ref: HashMap<Ref, usize> = map.keys().filter_map(|o| w.r.get(o).map(|r| (*r, *o))).collect();
+    let dest_has: HashMap<Ref, usize> = w.m.nodes.iter().filter(|(i, n)| n.dom == dest && !map.values().any(|c| c == *i)).filter_map(|(i, _)| w.r.get(i).map(|r| (*r, *i))).collect();
     for (_, c) in &pairs {
         let node = w.m.nodes.get_mut(c).unwrap();
         for (pk, pv) in node.props.iter_mut() {
@@ -667,13 +692,17 @@ fn model_clone(w: &mut World, xs: &[usize], dest: usize) -> (Vec<usize>, Vec<(us
                 let nt = match t {
                     MRef::Null => MRef::Null,
                     MRef::Node(i) => {
-                        if let Some(cp) = map.get(i) {
-                            if all[i].len() > 1 {
-                                amb.push(Ambiguous { copy: *c, prop: pk.clone(), cands: all[i].clone() });
+                        // (a Ref designates whoever holds its VALUE in the DOM at hand: with mirrored referents the
+                        // model node it was created from may live in another DOM while an original of this clone holds
+                        // the same value)
+                        let o = if map.contains_key(i) { Some(*i) } else { w.r.get(i).and_then(|r| orig_by_ref.get(r)).copied() };
+                        if let Some(o) = o {
+                            if all[&o].len() > 1 {
+                                amb.push(Ambiguous { copy: *c, prop: pk.clone(), cands: all[&o].clone() });
                             }
-                            MRef::Node(*cp)
-                        } else if dest_has.contains(i) {
-                            MRef::Node(*i)
+                            MRef::Node(map[&o])
+                        } else if let Some(j) = w.r.get(i).and_then(|r| dest_has.get(r)) {
+                            MRef::Node(*j)
                         } else {
                             MRef::Null
                         }
@@ -715,7 +744,7 @@ fn map_clone(w: &mut World, dest: usize, model_root: usize, real_root: Ref, out:
             out.push(v("C11", &format!("clone-ref-not-fresh:{}", opn), format!("{}: referent {} of a copy was already in use", opn, rr)));
         }
         w.r.insert(mi, rr);
-        w.back.insert(rr, mi);
+        w.back.entry(rr).or_default().push(mi);
         let kids: Vec<Ref> = match w.doms[dest].get_by_ref(rr) {
             Some(inst) => inst.children().to_vec(),
             None => {
@@ -750,7 +779,7 @@ pub fn apply(w: &mut World, op: &Op, out: &mut Vec<V>) {
             w.m.nodes.get_mut(parent).unwrap().children.push(root_id);
             for (info, id) in &ids {
                 w.r.insert(*id, info.referent);
-                w.back.insert(info.referent, *id);
+                w.back.entry(info.referent).or_default().push(*id);
                 w.all_refs_ever.insert(info.referent);
             }
             let pr = w.r[parent];
@@ -966,7 +995,7 @@ pub fn check_world(w: &World, out: &mut Vec<V>, opn: &str, sample: usize) {
             ));
         }
         for (gd, gr) in w.gone.iter().rev().take(64) {
-            if *gd == d && dom.get_by_ref(*gr).is_some() && !w.back.get(gr).map(|i| w.m.nodes.get(i).map(|n| n.dom == d).unwrap_or(false)).unwrap_or(false) {
+            if *gd == d && dom.get_by_ref(*gr).is_some() && !w.back.get(gr).map(|c| c.iter().any(|i| w.m.nodes.get(i).map(|n| n.dom == d).unwrap_or(false))).unwrap_or(false) {
                 out.push(v("C09", &format!("gone-still-resolves:{}", opn), format!("after {}: a destroyed / transferred-away instance can still be looked up", opn)));
                 break;
             }
@@ -995,7 +1024,7 @@ pub fn check_world(w: &World, out: &mut Vec<V>, opn: &str, sample: usize) {
                     dupl = true;
                 }
             }
-            let gotset: BTreeSet<usize> = got.iter().filter_map(|g| w.back.get(g).copied()).collect();
+            let gotset: BTreeSet<usize> = got.iter().filter_map(|g| w.back_in(d, g)).collect();
             if dupl || gotset != expect || got.len() != expect.len() {
                 out.push(v(
                     "C09",
@@ -1055,7 +1084,7 @@ pub fn check_world(w: &World, out: &mut Vec<V>, opn: &str, sample: usize) {
                     pr,
                     &format!("children-order:{}", opn),
                     format!("after {}: children of {} are {:?}, the documented effect gives {:?}", opn, mn.name,
-                        inst.children().iter().map(|c| w.back.get(c).map(|i| i.to_string()).unwrap_or("?".into())).collect::<Vec<_>>(),
+                        inst.children().iter().map(|c| w.back_in(d, c).map(|i| i.to_string()).unwrap_or("?".into())).collect::<Vec<_>>(),
                         mn.children),
                 ));
             }
@@ -1123,11 +1152,19 @@ pub fn run_history(ch: &mut dyn Chooser, cfg: &Cfg, rep: &mut Report, want: &str
         r: HashMap::new(),
         back: HashMap::new(),
         gone: vec![],
+        mirror: false,
         all_refs_ever: HashSet::new(),
         log: vec![],
     };
+    // half of the rich histories: every DOM's root is built with the SAME chosen referent (two trees mirrored from one
+    // source, as a syncing tool keeps them). Referents are only unique within one DOM; an operation that involves two
+    // DOMs must never conclude anything from a referent of one being equal to a referent of the other.
+    let mirror = cfg.rich_props && !cfg.exhaustive && cfg.ndoms >= 2 && ch.choose(2) == 0;
+    w.mirror = mirror;
+    let shared_root = Ref::new();
     for d in 0..cfg.ndoms {
         let b = InstanceBuilder::new("DataModel").with_name(format!("root{}", d));
+        let b = if mirror { b.with_referent(shared_root) } else { b };
         let id = w.m.next;
         w.m.next += 1;
         let tag = format!("root#{}", id);
@@ -1137,7 +1174,7 @@ pub fn run_history(ch: &mut dyn Chooser, cfg: &Cfg, rep: &mut Report, want: &str
         w.m.nodes.insert(id, MNode { class: "DataModel".into(), name: format!("root{}", d), props, parent: None, children: vec![], dom: d });
         w.m.roots.push(id);
         w.r.insert(id, b.referent());
-        w.back.insert(b.referent(), id);
+        w.back.entry(b.referent()).or_default().push(id);
         w.all_refs_ever.insert(b.referent());
         w.doms.push(WeakDom::new(b));
     }
@@ -1146,7 +1183,7 @@ pub fn run_history(ch: &mut dyn Chooser, cfg: &Cfg, rep: &mut Report, want: &str
     let mut moved_with_siblings = false;
     // scripted opening of the size scenarios: ordinary operations, applied and checked like every other step
     let mut prelude_stage = 0usize;
-    let leaf = |name: &str, props: Vec<(String, MV)>| NewNode { class: "ObjectValue".into(), name: name.into(), shadowed_uid: None, props, children: vec![], self_ref_prop: false, other_thread: false, ctor: 0, name_prop: None, content_obj: None, mistyped_uid: false };
+    let leaf = |name: &str, props: Vec<(String, MV)>| NewNode { class: "ObjectValue".into(), name: name.into(), shadowed_uid: None, props, children: vec![], self_ref_prop: false, other_thread: false, ctor: 0, mirror_of: None, name_prop: None, content_obj: None, mistyped_uid: false };
     // initial forest through inserts (part of the history)
     let total_steps = cfg.init_nodes + cfg.steps + if cfg.scenario != 0 { 6 } else { 0 };
     for step in 0..total_steps {
@@ -1154,14 +1191,14 @@ pub fn run_history(ch: &mut dyn Chooser, cfg: &Cfg, rep: &mut Report, want: &str
             (1, 0) => {
                 let wcount = [65usize, 70, 130][ch.choose(3)];
                 let kids = (0..wcount).map(|i| leaf(&format!("b{}", i), vec![])).collect();
-                Some(Op::Insert { dom: 0, parent: w.m.roots[0], sub: NewNode { class: "Folder".into(), name: "B".into(), shadowed_uid: None, props: vec![], children: kids, self_ref_prop: false, other_thread: false, ctor: 0, name_prop: None, content_obj: None, mistyped_uid: false } })
+                Some(Op::Insert { dom: 0, parent: w.m.roots[0], sub: NewNode { class: "Folder".into(), name: "B".into(), shadowed_uid: None, props: vec![], children: kids, self_ref_prop: false, other_thread: false, ctor: 0, mirror_of: None, name_prop: None, content_obj: None, mistyped_uid: false } })
             }
             (1, 1) => {
                 // B was the last insert: its model id and its children's ids are the last ones handed out
                 let b = *w.m.nodes.iter().rev().find(|(_, n)| n.name == "B").map(|(i, _)| i).unwrap();
                 let targets = w.m.nodes[&b].children.clone();
                 let kids = targets.iter().enumerate().map(|(i, t)| leaf(&format!("a{}", i), vec![("Value".to_owned(), MV::Ref(MRef::Node(*t)))])).collect();
-                Some(Op::Insert { dom: 0, parent: w.m.roots[0], sub: NewNode { class: "Folder".into(), name: "A".into(), shadowed_uid: None, props: vec![], children: kids, self_ref_prop: false, other_thread: false, ctor: 0, name_prop: None, content_obj: None, mistyped_uid: false } })
+                Some(Op::Insert { dom: 0, parent: w.m.roots[0], sub: NewNode { class: "Folder".into(), name: "A".into(), shadowed_uid: None, props: vec![], children: kids, self_ref_prop: false, other_thread: false, ctor: 0, mirror_of: None, name_prop: None, content_obj: None, mistyped_uid: false } })
             }
             // clone the folder whose children all point outside it (65-130 distinct outward Refs in ONE clone call),
             // within the DOM and, after the targets were moved to the other DOM, into that DOM
@@ -1173,7 +1210,7 @@ pub fn run_history(ch: &mut dyn Chooser, cfg: &Cfg, rep: &mut Report, want: &str
             (1, 4) if cfg.ndoms >= 2 => w.m.nodes.iter().find(|(_, n)| n.name == "A" && n.children.len() >= 65 && n.dom == 0 && n.parent.is_some()).map(|(i, _)| Op::CloneInto { x: *i, dest: 1 }),
             (2, 0) => {
                 let kids = (0..460).map(|i| leaf(&format!("m{}", i), vec![("UniqueId".to_owned(), MV::Uid(uid_of(i % 4)))])).collect();
-                Some(Op::Insert { dom: 0, parent: w.m.roots[0], sub: NewNode { class: "Folder".into(), name: "M".into(), shadowed_uid: None, props: vec![], children: kids, self_ref_prop: false, other_thread: false, ctor: 0, name_prop: None, content_obj: None, mistyped_uid: false } })
+                Some(Op::Insert { dom: 0, parent: w.m.roots[0], sub: NewNode { class: "Folder".into(), name: "M".into(), shadowed_uid: None, props: vec![], children: kids, self_ref_prop: false, other_thread: false, ctor: 0, mirror_of: None, name_prop: None, content_obj: None, mistyped_uid: false } })
             }
             (2, 1) => {
                 let mm = *w.m.nodes.iter().rev().find(|(_, n)| n.name == "M").map(|(i, _)| i).unwrap();
